@@ -497,13 +497,16 @@ def _make_hook(flows, inject, verdict):
                     if missing:
                         problem = "heads %r are on the winning action %r but do not advance" % (missing, key)
                         break
-                    if equal_len:
-                        best = max(chains[i] for i in idx)
-                        if not any(chains[i] == best for i in adv):
-                            problem = "advancing heads %r (chains %r) but the maximal chain %r belongs to %r" % (
-                                [info[i][0] for i in adv], [chains[i] for i in adv], best,
-                                [info[i][0] for i in idx if chains[i] == best])
-                            break
+                    # language reference (flow conflict resolution): score chains are compared left to right, a shorter chain is
+                    # padded with 1.0 (nothing unmentioned in the matches it did not make)
+                    width = max(len(chains[i]) for i in idx)
+                    padded = {i: list(chains[i]) + [1.0] * (width - len(chains[i])) for i in idx}
+                    best = max(padded[i] for i in idx)
+                    if not any(padded[i] == best for i in adv):
+                        problem = "advancing heads %r (chains %r) but the maximal (1.0-padded) chain %r belongs to %r" % (
+                            [info[i][0] for i in adv], [chains[i] for i in adv], best,
+                            [info[i][0] for i in idx if padded[i] == best])
+                        break
                     alive = [info[i][0] for i in idx if i not in adv and is_active_flow(get_flow_state_from_head(state, heads[i]))]
                     if alive:
                         problem = "losing heads' flows %r are still running" % alive
@@ -552,7 +555,7 @@ def _monitor_checks(rng, tier):
                 mode = rng.random()
                 chains = []
                 for _ in flows:
-                    ln = length if mode < 0.8 else rng.choice([1, 2, 3])
+                    ln = length if mode < 0.55 else rng.choice([1, 2, 3])
                     chains.append([rng.choice(grid) for _ in range(ln)])
                 if mode < 0.3:   # force ties
                     chains = [list(chains[0]) for _ in flows]
@@ -581,8 +584,8 @@ def _monitor_checks(rng, tier):
     yield dict(function="_resolve_action_conflicts (contract monitor, injected head order and score chains)", evaluations=n,
                distinct=len(seen), failures=len(failing), failing=failing,
                bound="%d loop/action layouts of 2-4 real heads (1-2 interaction loops + main loop) x head orders (all permutations in thorough, "
-                     "8 per layout in quick) x %d random score-chain vectors of length 1-3 over {1.0,0.9,0.81,0.5} (30%% forced all-equal; winner "
-                     "ordering only checked for equal-length chains) x 2 tie-break picks" % (len(layouts), reps))
+                     "8 per layout in quick) x %d random score-chain vectors of length 1-3 over {1.0,0.9,0.81,0.5} (30%% forced all-equal, 45%% with chains of different lengths: "
+                     "compared after padding with 1.0) x 2 tie-break picks" % (len(layouts), reps))
 
 
 def _run_raw(trig, flows, tie, hook):
